@@ -515,6 +515,10 @@ impl TypeChecker {
                     self.check_constraints(*span, ctx, target_ty)?;
                 } else {
                     self.unify(*span, ctx, expression_ty, target_ty)?;
+                    // `x *= x`: target and value are one and the same type, so the unification
+                    // has nothing to merge and checks nothing - the operator still has to be
+                    // defined for that type.
+                    self.check_constraints(*span, ctx, target_ty)?;
                 }
                 self.unify_option(*span, ctx, expression_ret, target_ret)
             }
